@@ -65,6 +65,26 @@ func runC18(c *core.Ctx) {
 			}
 		}
 	}
+	// writes that begin while a Close is pending behind a stalled sender
+	for rep := 0; rep < c.Scale(1, 10); rep++ {
+		for _, q := range []int{1, 2, 8} {
+			for _, mode := range []mon.Mode{mon.NonBlock, mon.Blocking} {
+				for entry := 0; entry < wl.NEntries; entry++ {
+					idx++
+					if !c.Mine(idx) {
+						continue
+					}
+					if mode == mon.Blocking && entry != wl.ECtxWrite1 && entry != wl.ECtxWritev {
+						continue
+					}
+					id := fmt.Sprintf("pending-close/%s/q%d/%s/r%d", mode, q, wl.EntryName[entry], rep)
+					if c.Case(id) {
+						c18PendingClose(c, id, mode, q, entry)
+					}
+				}
+			}
+		}
+	}
 	// stress with a slowed sender
 	total := c.Scale(1500, 30000)
 	for t := 0; t < total; t++ {
@@ -93,6 +113,91 @@ func runC18(c *core.Ctx) {
 			c.Inconclusive(id, "watchdog: "+cfg.String())
 		}
 		h.Rig.Dispose()
+	}
+}
+
+// c18PendingClose: the sender is stalled with a full queue behind it and Close has been called (it waits for the sender:
+// IsActive is already false, nothing has been cancelled yet). A write that begins now still has to behave like the
+// property says: in non-blocking mode it does not wait (the queue is full: queue-full error), in blocking mode a call
+// whose context has already ended returns. A call parked on a bare channel receive inside the channel's write path -
+// outside the queue/context select - is the definite violation.
+func c18PendingClose(c *core.Ctx, id string, mode mon.Mode, q, entry int) {
+	plan := []mon.Step{{At: "sBat", Occ: 1, Kind: mon.Gate, Until: "release", UntilCount: 1, Timeout: 60 * time.Second}}
+	rig := mon.NewRig(mon.RigOpts{Mode: mode, Queue: q, Plan: plan, QuietTail: true})
+	defer rig.Dispose()
+	defer rig.S.Mark("release")
+	if _, err := rig.Ch.Write1(mon.Payload(1, 0, 32)); err != nil || !rig.S.Await("sBat", 1, 8*time.Second) {
+		c.Inconclusive(id, "sender never reached the gate")
+		return
+	}
+	for k := 1; k <= q; k++ {
+		if _, err := rig.Ch.Write1(mon.Payload(1, k, 32)); err != nil {
+			c.Inconclusive(id, "filling write refused")
+			return
+		}
+	}
+	closed := make(chan struct{})
+	go func() { defer close(closed); rig.Ch.Close(errSentinel) }()
+	for i := 0; i < 5000 && rig.Ch.IsActive(); i++ {
+		time.Sleep(100 * time.Microsecond)
+	}
+	if rig.Ch.IsActive() {
+		c.Inconclusive(id, "Close was not elected")
+		return
+	}
+	ctx := context.Background()
+	if mode == mon.Blocking {
+		cctx, cancel := context.WithCancel(ctx)
+		cancel()
+		ctx = cctx
+	}
+	done := make(chan c18Res, 1)
+	go func() {
+		n, err := wl.DoWrite(rig.Ch, ctx, entry, mon.Payload(2, 0, 32), rand.New(rand.NewSource(1)))
+		done <- c18Res{n, err}
+	}()
+	parked := 0
+	var res c18Res
+	returned := false
+	for i := 0; i < 600 && !returned; i++ { // at most ~0.6 s: a bounded-wait Close gives up after about a second
+		select {
+		case res = <-done:
+			returned = true
+		case <-time.After(time.Millisecond):
+			if mon.ParkedIn("go-netty.(*channel).", "chan receive") > 0 {
+				if parked++; parked >= 20 {
+					i = 600
+				}
+			} else {
+				parked = 0
+			}
+		}
+	}
+	c.Count("pending_close_calls", 1)
+	c.Sig("pending-close", mode, q, entry, returned)
+	switch {
+	case !returned && parked >= 20:
+		key, what := "nonblocking-write-waits-while-close-is-pending", "a write on a non-blocking channel with a full queue that began while Close was pending behind a stalled sender is parked on a bare channel receive instead of returning the queue-full error"
+		if mode == mon.Blocking {
+			key, what = "blocking-write-ignores-ended-context-while-close-is-pending", "a blocking-mode write whose context had already ended, begun while Close was pending behind a stalled sender, is parked on a bare channel receive instead of returning the context's error"
+		}
+		c.Violation("C18:"+key, id, fmt.Sprintf("%s [mode=%s Q=%d entry=%s]", what, mode, q, wl.EntryName[entry]), map[string]interface{}{"marks": rig.S.LogString(60)})
+	case !returned:
+		c.Count("pending_close_calls_not_returned_not_judged", 1)
+	case res.err == nil:
+		c.Violation("C18:accepted-beyond-capacity", id, fmt.Sprintf("a write that began with a full queue behind a stalled sender (Close pending) was accepted [mode=%s Q=%d entry=%s]", mode, q, wl.EntryName[entry]), nil)
+	}
+	rig.S.Mark("release")
+	select {
+	case <-closed:
+	case <-time.After(10 * time.Second):
+		c.Inconclusive(id, "watchdog: Close did not complete after the sender was released")
+	}
+	if !returned {
+		select {
+		case <-done:
+		case <-time.After(5 * time.Second):
+		}
 	}
 }
 
@@ -190,7 +295,13 @@ func c18Scripted(c *core.Ctx, id string, mode mon.Mode, q, entry int, stim strin
 	parent, parentCancel := context.WithCancel(context.Background())
 	defer parentCancel()
 	plan := []mon.Step{{At: "sBat", Occ: 1, Kind: mon.Gate, Until: "release", UntilCount: 1, Timeout: 60 * time.Second}}
-	rig := mon.NewRig(mon.RigOpts{Mode: mode, Queue: q, Plan: plan, QuietTail: true, Ctx: parent})
+	tr := mon.NewRecTransport()
+	if rng.Intn(2) == 0 {
+		// a transport without deadline support: on a queued channel the caller's context deadline concerns the wait for
+		// queue space only, the transport belongs to the background sender
+		tr.DeadlineErr = errors.New("mock transport: deadlines not supported")
+	}
+	rig := mon.NewRig(mon.RigOpts{Mode: mode, Queue: q, Plan: plan, QuietTail: true, Ctx: parent, Tr: tr})
 	released := false
 	release := func() {
 		if !released {
